@@ -10,7 +10,7 @@ registration-level overrides; `include_if_unused`), their own code generation (`
 Enumerated (exhaustively inside the bound): source type X in gen_app_extra_src.SRC_TYPES x registration-level cloning override
 {none, clone_if_necessary, never_clone} x every set of at most K consumers drawn from the seven consumer slots
 {handler /r0 (&, value, &mut), handler /r1, pre, wrap, post, singleton constructor (+ route /r2 borrowing its output),
-request-scoped constructor (+ route /r3)} each taking X by `&` or by value; K = 2 quick (types SPK and SCK; 1 for the others) / 3 thorough; for the
+request-scoped constructor (+ route /r3)} each taking X by `&` or by value; K = 2 quick (types SPK and SCK under their default policy; 1 otherwise) / 3 thorough; for the
 single-consumer members additionally: everything but the source registered in a nested blueprint (prefix /n); for the
 configuration type SCU: the registration flags default_if_missing x include_if_unused with zero or one consumer.
 
@@ -127,7 +127,7 @@ def specs(tier):
         for cl in (None, "clone_if_necessary", "never_clone"):
             if tier == "quick" and cl is not None and cl == effective_policy(x, None):
                 continue  # quick: the override that restates the default is left to the thorough tier
-            kx = k if tier != "quick" or x in ("SPK", "SCK") else 1
+            kx = k if tier != "quick" or (x in ("SPK", "SCK") and cl is None) else 1
             for cons in consumer_sets(kx):
                 if not cons:
                     if cl is None:
